@@ -570,10 +570,11 @@ func (tx *FnTx) copyBuiltin(cc *ssa.CallCommon, v ssa.Value, st *State) *State {
 	et := cc.Args[0].Type().Underlying().(*types.Slice).Elem()
 	comp := tx.h.elemComp(et)
 	H := tx.h.heapTerm(st, comp)
-	H2 := tx.d.fresh("Hcp_"+comp.Name, comp.sort())
+	A2 := tx.d.fresh("Acp_"+comp.Name, "(Array Int "+comp.VSort+")")
+	H2 := sapp("store", H, "(s-obj "+dst.S+")", A2)
 	n := tx.d.fresh("ncopy", "Int")
 	tx.nq++
-	o, p := fmt.Sprintf("o_c%d", tx.nq), fmt.Sprintf("p_c%d", tx.nq)
+	p := fmt.Sprintf("p_c%d", tx.nq)
 	var srcLen, srcVal string
 	if src.Sort == "Str" {
 		srcLen = "(strlen " + src.S + ")"
@@ -584,9 +585,9 @@ func (tx *FnTx) copyBuiltin(cc *ssa.CallCommon, v ssa.Value, st *State) *State {
 		srcVal = fmt.Sprintf("(select (select %s (s-obj %s)) (+ (s-off %s) (- %s (s-off %s))))", H, src.S, src.S, p, dst.S)
 	}
 	tx.assume(fmt.Sprintf("(= %s (imin (s-len %s) %s))", n, dst.S, srcLen))
-	inDst := sand("(= "+o+" (s-obj "+dst.S+"))", "(<= (s-off "+dst.S+") "+p+")", "(< "+p+" (+ (s-off "+dst.S+") "+n+"))")
-	tx.assume(fmt.Sprintf("(forall ((%s Int) (%s Int)) (! (= (select (select %s %s) %s) (ite %s %s (select (select %s %s) %s))) :pattern ((select (select %s %s) %s))))",
-		o, p, H2, o, p, inDst, srcVal, H, o, p, H2, o, p))
+	inDst := sand("(<= (s-off "+dst.S+") "+p+")", "(< "+p+" (+ (s-off "+dst.S+") "+n+"))")
+	tx.assume(fmt.Sprintf("(forall ((%s Int)) (! (= (select %s %s) (ite %s %s (select (select %s (s-obj %s)) %s))) :pattern ((select %s %s))))",
+		p, A2, p, inDst, srcVal, H, dst.S, p, A2, p))
 	ns := st.clone()
 	ns.heaps[comp.Name] = H2
 	ns.hv = tx.d.fresh("hv", "Int")
